@@ -26,11 +26,12 @@ def ensure_deps():
 
 
 def load_known(prop):
-    p = os.path.join(ROOT, "known_findings.json")
-    if not os.path.exists(p):
-        return [], []
-    data = json.load(open(p))
-    mine = [f for f in data.get("findings", []) if f.get("property") == prop]
+    import glob
+    allf = []
+    for p in [os.path.join(ROOT, "known_findings.json")] + sorted(glob.glob(os.path.join(ROOT, "findings", "*.json"))):
+        if os.path.exists(p):
+            allf += json.load(open(p)).get("findings", [])
+    mine = [f for f in allf if f.get("property") == prop]
     return [f for f in mine if f.get("status") == "open"], [f for f in mine if f.get("status") == "fixed"]
 
 
